@@ -5,6 +5,8 @@
 package agent
 
 import (
+	"sync"
+
 	log "github.com/sirupsen/logrus"
 
 	"github.com/dtn7/dtn7-go/pkg/bpv7"
@@ -15,6 +17,9 @@ type PingAgent struct {
 	endpoint bpv7.EndpointID
 	receiver chan Message
 	sender   chan Message
+
+	// pendingPongs counts the pongs which are not yet handed over to the sender channel.
+	pendingPongs sync.WaitGroup
 }
 
 // NewPing creates a new PingAgent ApplicationAgent.
@@ -35,7 +40,10 @@ func (p *PingAgent) log() *log.Entry {
 }
 
 func (p *PingAgent) handler() {
-	defer close(p.sender)
+	defer func() {
+		p.pendingPongs.Wait()
+		close(p.sender)
+	}()
 
 	for m := range p.receiver {
 		switch m := m.(type) {
@@ -72,7 +80,14 @@ func (p *PingAgent) ackBundle(b bpv7.Bundle) {
 		p.log().WithError(err).Warn("Building ACK Bundle errored")
 	} else {
 		p.log().WithField("bundle", bndl).Info("Sending ACK Bundle")
-		p.sender <- BundleMessage{bndl}
+
+		// The handler must keep on reading its receiver channel while the pong waits to be taken over. Otherwise
+		// the sender of the next ping and the consumer of this pong might wait for each other.
+		p.pendingPongs.Add(1)
+		go func() {
+			defer p.pendingPongs.Done()
+			p.sender <- BundleMessage{bndl}
+		}()
 	}
 }
 
